@@ -1370,7 +1370,9 @@ def _put_one_UnaryOp_operand(
         if (codea := code.a).__class__ is not Constant:
             raise NodeError('can only put Constant to a pattern UnaryOp.operand')
 
-        if not isinstance(codea.value, (int, float) if self.parent.a.__class__ is BinOp else (int, float, complex)):
+        if (isinstance(value := codea.value, bool)  # True is an int
+            or not isinstance(value, (int, float) if self.parent.a.__class__ is BinOp else (int, float, complex))
+        ):
             raise NodeError('invalid Constant for pattern UnaryOp.operand')
 
     return _put_one_exprlike_required(self, code, idx, field, child, static, options, 2)
@@ -1490,7 +1492,24 @@ def _put_one_Constant_value(
 ) -> fst.FST:
     """Set a `Constant` value, mostly normal unless its a child of a `JoinedStr` or `TemplateStr`."""
 
-    if not ((parent := self.parent) and parent.a.__class__ in (JoinedStr, TemplateStr)):
+    if not ((parent := self.parent) and (parent_cls := parent.a.__class__) in (JoinedStr, TemplateStr)):
+        if parent and self.parent_pattern():  # only some constants are valid in pattern expressions, 'case True:' is a MatchSingleton and not a MatchValue, '-None' and '-True' are not patterns
+            code = value = code_as_constant(code, options, self.root._parse_params)
+
+            if parent_cls in (UnaryOp, BinOp):  # part of a number like '-1' or '1+2j'
+                valid = isinstance(value, (int, float, complex)) and not isinstance(value, bool)
+
+                if valid and parent_cls is BinOp:
+                    valid = isinstance(value, complex) is (self.pfield.name == 'right')
+
+            elif parent_cls is MatchValue:
+                valid = isinstance(value, (int, float, complex, str, bytes)) and not isinstance(value, bool)
+            else:  # MatchMapping.keys
+                valid = value is not ...
+
+            if not valid:
+                raise NodeError(f'invalid Constant value {value!r} for pattern expression in {parent_cls.__name__}')
+
         return _put_one_constant(self, code, idx, field, child, static, options)
 
     raise NotImplementedError('put Constant.value which is in JoinedStr/TemplateStr.values')
